@@ -155,7 +155,8 @@ pub fn is_valid_user_token(token: &String, user_name: &String, db: &Database) ->
     match db.get(&format!("$$user_{}", user_name)) {
         Some(value) => {
             log::debug!("[is_valid_token] Token {} value {}", value, token);
-            value == token
+            // A removed user stays in memory as a tombstone, what it holds is not a token
+            value.state != ValueStatus::Deleted && value == token
         }
         None => false,
     }
